@@ -612,11 +612,15 @@ def resampleStepwise(xin, yin, xout, avg=True):
     # loop through xout / the xout bins
     yout = []
     for i in range(1, len(bins)):
-        start = bins[i - 1]
+        # an output bin that begins below the input range begins with the first input bin
+        start = max(bins[i - 1], 1)
         end = bins[i]
-        chunk = yin[start - 1 : end]
+        # work on a copy: the caller's values are never modified
+        chunk = list(yin[start - 1 : end])
         length = xin[start - 1 : end + 1]
         length = [length[j] - length[j - 1] for j in range(1, len(length))]
+        # the fraction of each input bin that lies inside this output bin (used when summing)
+        inside = [1.0] * len(chunk)
 
         # if the xout lies outside the xin range
         if not len(chunk):
@@ -629,21 +633,28 @@ def resampleStepwise(xin, yin, xout, avg=True):
             if fraction == 0:
                 chunk = chunk[:-1]
                 length = length[:-1]
+                inside = inside[:-1]
             elif avg:
                 length[-1] *= fraction
             else:
-                chunk[-1] *= fraction
+                inside[-1] -= 1.0 - fraction
 
         # trim any partial left-side bins
-        if xout[i - 1] > xin[start - 1]:
+        if len(chunk) and xout[i - 1] > xin[start - 1]:
             fraction = (xin[start] - xout[i - 1]) / (xin[start] - xin[start - 1])
             if fraction == 0:
                 chunk = chunk[1:]
                 length = length[1:]
+                inside = inside[1:]
             elif avg:
                 length[0] *= fraction
             else:
-                chunk[0] *= fraction
+                inside[0] -= 1.0 - fraction
+
+        # the output bin only touches the xin range
+        if not len(chunk):
+            yout.append(0)
+            continue
 
         # return the sum or the average
         if [1 for c in chunk if (not hasattr(c, "__len__") and c is None)]:
@@ -652,7 +663,7 @@ def resampleStepwise(xin, yin, xout, avg=True):
             weighted_sum = sum([ch * ln for ch, ln in zip(chunk, length)])
             yout.append(weighted_sum / sum(length))
         else:
-            yout.append(sum(chunk))
+            yout.append(sum([ch * fr for ch, fr in zip(chunk, inside)]))
 
     return yout
 
